@@ -19,16 +19,16 @@ use std::sync::Arc;
 const NOOP_CATS: [Cat; 2] = [Cat::NoOp, Cat::Panic];
 
 #[derive(Clone, Debug)]
-struct Fault {
+pub struct Fault {
     /// index in the honest op list before which the fault ops are inserted
-    at: usize,
-    ops: Vec<Op>,
-    kind: &'static str,
+    pub at: usize,
+    pub ops: Vec<Op>,
+    pub kind: &'static str,
     /// psk to leave out of the named side's configuration (restored by a SetPsk in `ops`)
-    omit_psk: Option<(Side, usize)>,
+    pub omit_psk: Option<(Side, usize)>,
 }
 
-fn honest(proto: &Proto) -> Vec<Op> {
+pub fn honest(proto: &Proto) -> Vec<Op> {
     let dirs = [Side::I, Side::R, Side::I, Side::R, Side::I, Side::R];
     sess::full_session_ops(proto, &[2, 3, 4, 5], Mode::TT, &dirs, &[1, 2, 3, 4, 5, 6])
 }
@@ -76,7 +76,7 @@ fn boundaries(proto: &Proto, k: usize, plen: usize) -> Vec<usize> {
     out
 }
 
-fn faults_for(proto: &Proto, exhaustive_lengths: bool, bit_stride: usize) -> Vec<Fault> {
+pub fn faults_for(proto: &Proto, exhaustive_lengths: bool, bit_stride: usize) -> Vec<Fault> {
     let hs_plens = [2usize, 3, 4, 5];
     let ov = overheads(proto);
     let n = proto.n_msgs();
@@ -178,7 +178,7 @@ fn faults_for(proto: &Proto, exhaustive_lengths: bool, bit_stride: usize) -> Vec
     f
 }
 
-fn apply(honest: &[Op], faults: &[&Fault]) -> Vec<Op> {
+pub fn apply(honest: &[Op], faults: &[&Fault]) -> Vec<Op> {
     // insert from the back so that positions stay valid; equal positions keep their given order
     let mut ops = honest.to_vec();
     let mut fs: Vec<&&Fault> = faults.iter().collect();
@@ -224,7 +224,7 @@ fn judge_against_clean(e: &Exec, clean: &[Vec<Vec<u8>>; 2], fault_steps: &[usize
     (v, true)
 }
 
-fn cfg_for(proto: &Proto, faults: &[&Fault]) -> Config {
+pub fn cfg_for(proto: &Proto, faults: &[&Fault]) -> Config {
     let mut c = Config::honest(proto, 0);
     c.crypto_oracle = false;
     for f in faults {
